@@ -466,6 +466,193 @@ theorem roundRobin_count {W w : Nat} (hw : w < W) : ∀ (k : Nat), k ≤ (roundR
     simp only [roundRobin, List.replicate_succ, List.flatten_cons, List.count_append] at ih ⊢
     omega
 
+/-- a schedule made of rounds, each of which contains `w`, has at least as many slices of `w` as rounds -/
+theorem count_flatten_ge {w : Nat} : ∀ (rounds : List (List Nat)), (∀ r ∈ rounds, w ∈ r) →
+    rounds.length ≤ rounds.flatten.count w
+  | [], _ => Nat.zero_le _
+  | r :: rest, h => by
+    have ih := count_flatten_ge rest (fun r' hr' => h r' (List.mem_cons_of_mem _ hr'))
+    have h1 : 0 < r.count w := List.count_pos_iff.mpr (h r List.mem_cons_self)
+    simp only [List.flatten_cons, List.count_append, List.length_cons]
+    omega
+
+/-! ## every schedule is as good as a short one: the sub-schedule of the slices that do something -/
+
+/-- the slices of a schedule that are not spent on a done worker, as a schedule -/
+def effSub (g : Star) : List Nat → SState → List Nat
+  | [], _ => []
+  | w :: rest, s => (if workerDone g s w then [] else [w]) ++ effSub g rest (micro g .star s w)
+
+theorem effSub_length (g : Star) : ∀ (sched : List Nat) (s : SState),
+    (effSub g sched s).length = effSlices g sched s
+  | [], _ => rfl
+  | w :: rest, s => by
+    simp only [effSub, effSlices, List.length_append, effSub_length g rest]
+    split <;> simp
+
+theorem effSub_sublist (g : Star) : ∀ (sched : List Nat) (s : SState), (effSub g sched s).Sublist sched
+  | [], _ => List.Sublist.refl _
+  | w :: rest, s => by
+    simp only [effSub]
+    split
+    · exact (effSub_sublist g rest _).cons _
+    · exact (effSub_sublist g rest _).cons_cons _
+
+/-- leaving out the slices of done workers does not change the outcome -/
+theorem runSched_effSub (g : Star) : ∀ (sched : List Nat) (s : SState),
+    runSched g .star (effSub g sched s) s = runSched g .star sched s
+  | [], _ => rfl
+  | w :: rest, s => by
+    simp only [effSub, runSched_cons]
+    cases hd : workerDone g s w with
+    | true =>
+      simp only [if_true, List.nil_append]
+      have ih := runSched_effSub g rest (micro g .star s w)
+      rw [micro_done hd] at ih ⊢
+      exact ih
+    | false =>
+      simp only [Bool.false_eq_true, if_false, List.singleton_append, runSched_cons]
+      exact runSched_effSub g rest _
+
+/-- … and in what is left no slice is wasted -/
+theorem effSlices_effSub (g : Star) : ∀ (sched : List Nat) (s : SState),
+    effSlices g (effSub g sched s) s = (effSub g sched s).length
+  | [], _ => rfl
+  | w :: rest, s => by
+    simp only [effSub]
+    cases hd : workerDone g s w with
+    | true =>
+      simp only [if_true, List.nil_append]
+      have ih := effSlices_effSub g rest (micro g .star s w)
+      rw [micro_done hd] at ih ⊢
+      exact ih
+    | false =>
+      simp only [Bool.false_eq_true, if_false, List.singleton_append, effSlices, hd, List.length_cons]
+      rw [effSlices_effSub g rest _]
+      omega
+
+/-! ## exact number: two slices per execution -/
+
+/-- the class of a node a worker has finished is dropped for that worker -/
+def FinDropped (g : Star) (s : SState) : Prop := ∀ n w, s.finished n = some w → s.dropped (keyOf g n) w = true
+
+theorem finDropped_init (g : Star) : FinDropped g {} := by
+  intro n w h; simp at h
+
+theorem finDropped_finish {g : Star} {s : SState} (h : FinDropped g s) (n w : Nat) :
+    FinDropped g (finish g .star s n w) := by
+  rw [finish_star]
+  intro n' w' hf
+  by_cases hn : n' = n
+  · subst hn
+    simp [upd_same] at hf
+    subst hf
+    simp
+  · simp only [upd_other _ _ _ _ hn] at hf
+    simp [h n' w' hf]
+
+/-- a candidate is never one the worker has finished already: the run flag of the star policy is set for it -/
+theorem runFlag_of_candidate {g : Star} {s : SState} (h : FinDropped g s) {n w : Nat} (hc : n ∈ candidates g s w) :
+    runFlag .star s n w = true := by
+  simp only [runFlag, bne_iff_ne, ne_eq]
+  intro hf
+  have := h n w hf
+  rw [(mem_candidates.mp hc).2.2] at this
+  cases this
+
+theorem finDropped_micro {g : Star} {s : SState} (h : FinDropped g s) (w : Nat) : FinDropped g (micro g .star s w) := by
+  unfold micro
+  cases hpc : s.pc w with
+  | some n => exact finDropped_finish h n w
+  | none =>
+    simp only
+    cases hp : pickChild g s w with
+    | none => exact h
+    | some n =>
+      simp only
+      split
+      · exact h
+      · exact finDropped_finish h n w
+
+/-- number of workers that await the end of a test -/
+def busyC (g : Star) (s : SState) : Nat := sumTo g.workers.length (fun w => if (s.pc w).isSome then 1 else 0)
+
+theorem sumTo_add_one {f h : Nat → Nat} (w : Nat) : ∀ (n : Nat), w < n → h w = f w + 1 → (∀ i, i ≠ w → f i = h i) →
+    sumTo n h = sumTo n f + 1
+  | 0, hw, _, _ => by omega
+  | n + 1, hw, h1, heq => by
+    simp only [sumTo]
+    by_cases hn : w = n
+    · subst hn
+      have := sumTo_congr (f := f) (h := h) w (fun i hi => heq i (by omega))
+      omega
+    · have := sumTo_add_one w n (by omega) h1 heq
+      have := heq n (fun h => hn h.symm)
+      omega
+
+/-- a slice of a worker that is not done either starts a test (one more execution, one more busy worker) or ends one
+(one busy worker less) -/
+theorem micro_account {g : Star} {s : SState} (h : PcCand g s) (hf : FinDropped g s) {w : Nat}
+    (hnd : workerDone g s w = false) :
+    2 * (micro g .star s w).execs.length + busyC g s = 2 * s.execs.length + busyC g (micro g .star s w) + 1 := by
+  have hw : w < g.workers.length := by
+    by_cases hlt : w < g.workers.length
+    · exact hlt
+    · have := workerDone_out_of_range h (w := w) (by omega)
+      rw [this] at hnd; cases hnd
+  unfold micro
+  cases hpc : s.pc w with
+  | some n =>
+    simp only
+    have hb : busyC g s = busyC g (finish g .star s n w) + 1 := by
+      apply sumTo_add_one w _ hw
+      · simp [pc_finish, upd_same, hpc]
+      · intro i hi; simp [pc_finish, upd_other _ _ _ _ hi]
+    have he : (finish g .star s n w).execs = s.execs := by rw [finish_star]
+    rw [he]; omega
+  | none =>
+    simp only
+    cases hp : pickChild g s w with
+    | none => simp [workerDone, hpc, hp] at hnd
+    | some n =>
+      simp only
+      have hc : n ∈ candidates g s w := minByRank_mem g _ n hp
+      rw [if_pos (runFlag_of_candidate hf hc)]
+      have hb : busyC g { s with pc := upd s.pc w (some n), execs := s.execs ++ [(w, n)] } = busyC g s + 1 := by
+        apply sumTo_add_one w _ hw
+        · simp [upd_same, hpc]
+        · intro i hi; simp [upd_other _ _ _ _ hi]
+      rw [hb]
+      simp only [List.length_append, List.length_singleton]
+      omega
+
+/-- every schedule: the slices not spent on done workers are two per finished execution and one per running one -/
+theorem effSlices_exact {g : Star} : ∀ (sched : List Nat) (s : SState), PcCand g s → FinDropped g s →
+    2 * (runSched g .star sched s).execs.length + busyC g s =
+      2 * s.execs.length + busyC g (runSched g .star sched s) + effSlices g sched s
+  | [], _, _, _ => by simp [effSlices, runSched]
+  | w :: rest, s, h, hf => by
+    rw [runSched_cons]
+    have ih := effSlices_exact rest _ (pcCand_micro h w) (finDropped_micro hf w)
+    simp only [effSlices]
+    cases hd : workerDone g s w with
+    | true => rw [micro_done hd] at ih ⊢; simpa using ih
+    | false =>
+      have := micro_account h hf hd
+      simp only [Bool.false_eq_true, if_false]
+      omega
+
+theorem busyC_init (g : Star) : busyC g {} = 0 := by
+  unfold busyC
+  rw [sumTo_congr (h := fun _ => 0) _ (fun i _ => by simp), sumTo_const]; simp
+
+theorem busyC_allDone {g : Star} {s : SState} (hd : allDone g s = true) : busyC g s = 0 := by
+  unfold busyC
+  rw [sumTo_congr (h := fun _ => 0) _ (fun i hi => ?_), sumTo_const]; simp
+  have := allDone_iff.mp hd i hi
+  simp only [workerDone, Bool.and_eq_true, Option.isNone_iff_eq_none] at this
+  simp [this.1]
+
 /-- decidable form of `NamesWF`: on the workers and nodes of the graph the substring test is ownership, and every
 owner is a worker of the graph -/
 def namesOk (g : Star) : Bool :=
